@@ -1,45 +1,83 @@
 //! scratch probes (not registered)
 use super::*;
-use crate::message::{CreateObject, Message, MessageOps, Sync, CallFunction};
-use bytes::BytesMut;
+use crate::message::Packetizer;
 
-#[kani::proof]
-#[kani::unwind(20)]
-fn s1_sync_roundtrip_via_message() {
-    let serial: u32 = kani::any();
-    let m = Message::Sync(Sync { serial });
-    let out = m.clone().serialize_message().unwrap();
-    let back = Message::deserialize_message(out);
-    assert!(back == Ok(m));
+/// two frames: [6,0,0,0,30,x] (Sync with a one-byte serial) and [5,0,0,0,2] (Shutdown), then a
+/// third [7,0,0,0,19,y,0]
+fn stream(x: u8, y: u8) -> [u8; 18] {
+    [6, 0, 0, 0, 30, x, 5, 0, 0, 0, 2, 7, 0, 0, 0, 19, y, 0]
 }
 
-#[kani::proof]
-#[kani::unwind(20)]
-fn s2_create_object_typed_roundtrip() {
-    let serial: u32 = kani::any();
-    let u: [u8; 16] = kani::any();
-    let m = CreateObject { serial, uuid: ObjectUuid(Uuid::from_bytes(u)) };
-    let out = m.serialize_message().unwrap();
-    let n = out.len();
-    assert!(n >= 22 && n <= 26 && out[0] as usize == n && out[1] == 0 && out[4] == 3);
-    let back = CreateObject::deserialize_message(out);
-    assert!(back == Ok(m));
-}
-
-#[kani::proof]
-#[kani::unwind(20)]
-fn s3_call_function_typed_roundtrip() {
-    let serial: u32 = kani::any();
-    let function: u32 = kani::any();
-    let c: [u8; 16] = kani::any();
-    let x: u8 = kani::any();
-    let m = CallFunction { serial, service_cookie: ServiceCookie(Uuid::from_bytes(c)), function, value: SerializedValue::serialize(x).unwrap() };
-    let out = m.clone().serialize_message().unwrap();
-    let n = out.len();
-    assert!(out[0] as usize == n && out[4] == 10);
-    let back = CallFunction::deserialize_message(out);
-    match back {
-        Ok(b) => assert!(b.serial == serial && b.function == function && b.service_cookie == m.service_cookie && b.value.len() == 2 && b.value[1] == x),
-        Err(_) => panic!("round trip failed"),
+/// drains all complete frames, checking them against the expected sequence starting at `*next`
+fn drain(p: &mut Packetizer, s: &[u8; 18], next: &mut usize, fed: usize) {
+    let starts = [0usize, 6, 11];
+    let ends = [6usize, 11, 18];
+    loop {
+        match p.next_message() {
+            Some(m) => {
+                assert!(*next < 3, "more frames than were fed");
+                let (a, b) = (starts[*next], ends[*next]);
+                assert!(b <= fed, "a frame was delivered before it was complete");
+                assert!(m.len() == b - a, "frame length differs");
+                let mut i = 0;
+                while i < b - a {
+                    assert!(m[i] == s[a + i], "frame bytes differ (lost or duplicated bytes)");
+                    i += 1;
+                }
+                *next += 1;
+            }
+            None => break,
+        }
     }
+    // every frame that is complete has been delivered
+    let complete = if fed >= 18 { 3 } else if fed >= 11 { 2 } else if fed >= 6 { 1 } else { 0 };
+    assert!(*next == complete, "a complete frame was withheld");
+}
+
+/// the zero-copy interface: write into spare_capacity_mut as much as fits (the slice is only
+/// guaranteed to be non-empty), then bytes_written; repeat until everything is fed
+fn feed_spare(p: &mut Packetizer, bytes: &[u8]) {
+    let mut off = 0;
+    let mut rounds = 0;
+    while off < bytes.len() {
+        let dst = p.spare_capacity_mut();
+        assert!(!dst.is_empty(), "spare capacity is never empty");
+        let n = if dst.len() < bytes.len() - off { dst.len() } else { bytes.len() - off };
+        let mut i = 0;
+        while i < n {
+            dst[i].write(bytes[off + i]);
+            i += 1;
+        }
+        unsafe { p.bytes_written(n) };
+        off += n;
+        rounds += 1;
+        assert!(rounds <= 18);
+    }
+}
+
+
+fn pieces(k: usize, first_spare: bool, second_spare: bool) {
+    let s = stream(kani::any(), kani::any());
+    let mut p = Packetizer::new();
+    let mut next = 0;
+    if first_spare { feed_spare(&mut p, &s[..k]); } else { p.extend_from_slice(&s[..k]); }
+    drain(&mut p, &s, &mut next, k);
+    if second_spare { feed_spare(&mut p, &s[k..]); } else { p.extend_from_slice(&s[k..]); }
+    drain(&mut p, &s, &mut next, 18);
+    assert!(next == 3);
+}
+
+macro_rules! pp { ($($n:ident = ($k:expr,$a:expr,$b:expr);)*) => {$(
+    #[kani::proof]
+    #[kani::unwind(24)]
+    fn $n() { pieces($k,$a,$b); }
+)*}; }
+pp! {
+    p_es_08 = (8, false, true);
+    p_es_13 = (13, false, true);
+    p_es_03 = (3, false, true);
+    p_se_08 = (8, true, false);
+    p_se_13 = (13, true, false);
+    p_se_03 = (3, true, false);
+    p_ss_03 = (3, true, true);
 }
